@@ -3,6 +3,7 @@
   Property theorems only; helper lemmas live in Proofs/NameLemmas.lean.
 -/
 import Resolved.Proofs.NameLemmas
+import Resolved.Proofs.WireDecodeLemmas
 
 namespace Resolved
 
@@ -106,6 +107,13 @@ theorem C16_fromRelativeDotted_wf (o : Name) (s : List UInt8) (n : Name) (ho : W
 /-- The subdomain relation is label-wise suffix. -/
 theorem C16_subdomain_iff_suffix (a b : Name) : a.isSubdomainOf b = true ↔ b.labels <:+ a.labels := by
   unfold Name.isSubdomainOf; exact List.isSuffixOf_iff_suffix
+
+/-- Names that come off the wire (with or without compression pointers) are well-formed. -/
+theorem C16_wire_wf (id : Nat) (buf : List UInt8) (pos : Nat) (n : Name) (e : Nat)
+    (h : decodeName id buf pos = .ok (n, e)) : WFName n := by
+  have hw := (decodeName_sound h)
+  have := hw.1.wf
+  exact ⟨this.1, this.2.1, this.2.2, hw.2⟩
 
 /-- non-vacuity: a concrete mixed-case 3-label name goes through `try_from`/`from_labels`. -/
 example : Name.fromDotted [87, 119, 87, 46, 69, 120, 46] =
